@@ -278,7 +278,7 @@ func (p *PacketOut) MarshalBinary() (data []byte, err error) {
 
 func (p *PacketOut) UnmarshalBinary(data []byte) error {
 	err := p.Header.UnmarshalBinary(data)
-	n := p.Header.Len()
+	n := int(p.Header.Len())
 
 	p.BufferId = binary.BigEndian.Uint32(data[n:])
 	n += 4
@@ -289,7 +289,7 @@ func (p *PacketOut) UnmarshalBinary(data []byte) error {
 
 	n += 6 // for pad
 
-	end := n + p.ActionsLen
+	end := n + int(p.ActionsLen)
 	for n < end {
 		a, err := DecodeAction(data[n:])
 		if err != nil {
@@ -299,7 +299,7 @@ func (p *PacketOut) UnmarshalBinary(data []byte) error {
 		if a.Len() == 0 {
 			return errors.New("The packet-out contains an action of length 0.")
 		}
-		n += a.Len()
+		n += int(a.Len())
 	}
 
 	if p.Data == nil {
